@@ -213,6 +213,20 @@ async function lasso_case(c) {
     }
 }
 
+async function query_csv_case(c) {
+    // rbql-js query_csv on real files (written by the caller); returns the output file content
+    let warnings = [];
+    let out_path = c.out_path;
+    try { fs.unlinkSync(out_path); } catch (e) {}
+    try {
+        await rbql_csv.query_csv(c.query, c.input_path, c.dlm, c.policy, out_path, c.dlm, c.policy, 'utf-8', warnings, !!c.with_headers, null, '', c.bulk ? {'bulk_read': true} : null);
+        let content = fs.existsSync(out_path) ? fs.readFileSync(out_path).toString('utf-8') : null;
+        return {output: content, warnings: warnings};
+    } catch (e) {
+        return {error: err_info(e)};
+    }
+}
+
 async function handle(c) {
     switch (c.op) {
         case 'split': {
@@ -237,6 +251,7 @@ async function handle(c) {
         case 'read': return await read_case(c);
         case 'readcomp': return await readcomp_case(c);
         case 'lasso': return await lasso_case(c);
+        case 'query_csv': return await guarded(() => query_csv_case(c), 5000);
         case 'write': return await write_case(c);
         case 'query': return await query_case(c);
         case 'header': {
